@@ -206,8 +206,23 @@ fn run_case(run: &Run, c: &Case, lo: &mut Local, st: &mut Stats) -> Result<(), F
         // a user auto-correct file needs its own context
         let sb = Sandbox::new();
         std::fs::write(sb.autocorrect_file(), serde_json::to_string(&user).unwrap()).expect("write user autocorrect");
-        let ctx = Ctx::new(opts_of(c.optidx % 8), &sb).map_err(|p| Failure::new(panic_kind(&p), p.to_string(), case_json(c)))?;
+        let mut ctx = Ctx::new(opts_of(c.optidx % 8), &sb).map_err(|p| Failure::new(panic_kind(&p), p.to_string(), case_json(c)))?;
         st.label("with-user-autocorrect-file");
+        if c.text.len() % 3 == 0 {
+            // the user's list was away for a moment (file moved aside, update-engine, file moved back untouched,
+            // update-engine): it is in force again and its entry comes first
+            let pf = |p: crate::driver::PanicInfo| Failure::new(panic_kind(&p), p.to_string(), case_json(c));
+            let f = sb.autocorrect_file();
+            if let (Ok(bytes), Ok(m)) = (std::fs::read(&f), std::fs::metadata(&f).and_then(|m| m.modified())) {
+                std::fs::remove_file(&f).expect("move aside");
+                let o = ctx.opts;
+                ctx.update(o, &sb).map_err(pf)?;
+                std::fs::write(&f, bytes).expect("move back");
+                std::fs::File::options().write(true).open(&f).expect("open").set_modified(m).expect("mtime");
+                ctx.update(o, &sb).map_err(pf)?;
+                st.label("user-list-away-and-back");
+            }
+        }
         type_and_judge(run, &ctx, &c.text, &user, st, &|| case_json(c))
     }
 }
@@ -361,6 +376,7 @@ pub fn run(run: &Run) {
     run.require_label("has-autocorrect", 50);
     run.require_label("has-emoji", 20);
     run.require_label("with-user-autocorrect-file", 20);
+    run.require_label("user-list-away-and-back", 5);
 }
 
 pub fn replay(run: &Run, case: &Value) -> Result<(), Failure> {
